@@ -58,6 +58,7 @@ type evmcScenario struct {
 	Cfg   *GenesisCfg `json:"cfg"`
 	Setup evmcSetup   `json:"setup"`
 	Top   Op          `json:"top"`
+	Fam   string      `json:"fam"` // "" (enumerated family) | "rand" (specs/EvmCosmosRand.tla)
 }
 
 var stakeTypeOf = map[string]stakingtypes.AuthorizationType{
@@ -553,7 +554,11 @@ func evmcMain(args []string) error {
 					tw.Emit(M{"ev": "skip", "scn": i + 1, "why": fmt.Sprint(rec)})
 				}
 			}()
-			evmcOne(tw, i+1, "script", sc)
+			src := "script"
+			if sc.Fam != "" {
+				src = sc.Fam
+			}
+			evmcOne(tw, i+1, src, sc)
 		}()
 	}
 	fmt.Printf("evmc: scenarios=%d lines=%d\n", *to-*from, tw.N)
